@@ -18,7 +18,7 @@
 (***************************************************************************)
 EXTENDS Integers, Sequences, FiniteSets, TLC, Json
 
-CONSTANTS FrameLimit, MaxLen, Alphabet, Shape
+CONSTANTS FrameLimit, MaxLen, Alphabet, Shapes
 
 INSTANCE Bytecode
 
@@ -28,10 +28,18 @@ vars == <<phase, code, p, hd, wf, pc, open, fault>>
 Halt == -1
 None == -1
 
-MkProto(c) == [hi |-> [i \in 1..Len(c) |-> c[i][1]], lo |-> [i \in 1..Len(c) |-> c[i][2]],
+MkProto(c, Shape) ==
+              [hi |-> [i \in 1..Len(c) |-> c[i][1]], lo |-> [i \in 1..Len(c) |-> c[i][2]],
                nreg |-> Shape.nreg, nup |-> Shape.nup, np |-> Shape.np, va |-> Shape.va,
                nline |-> Len(c), ndbgup |-> Shape.nup, kt |-> Shape.kt, ks |-> Shape.ks, sk |-> Shape.sk,
                pnup |-> Shape.pnup]
+
+(* function entry (initCallFrame): the caller's arguments fill R(0)..R(np-1), *)
+(* with VarArgHasArg the arg table / nil is stored in R(np), then the top is  *)
+(* set to NumUsedRegisters - anything at or above it is wiped                 *)
+EntryFaults(pp) ==
+    (IF pp.np > pp.nreg THEN {"frame:parameters"} ELSE {}) \cup
+    (IF pp.va % 2 = 1 /\ pp.np >= pp.nreg THEN {"frame:arg-slot"} ELSE {})
 
 (* ---- one step of the abstract VM ---------------------------------------- *)
 (* returns the faults of executing the word at q, the possible next pcs and *)
@@ -136,10 +144,12 @@ Extend == /\ phase = "build" /\ Len(code) < MaxLen
           /\ UNCHANGED <<phase, p, hd, wf, pc, open, fault>>
 
 Seal == /\ phase = "build"
-        /\ LET pp == MkProto(Append(code, RET))  h == Frame(pp) IN
-           /\ p' = pp /\ hd' = h /\ wf' = (ViolPairs(pp, h) = {})
+        /\ \E sh \in Shapes :
+             LET pp == MkProto(Append(code, RET), sh)  h == Frame(pp) IN
+             /\ p' = pp /\ hd' = h /\ wf' = (ViolPairs(pp, h) = {})
+             /\ fault' = EntryFaults(pp)
         /\ phase' = "run" /\ pc' = 0
-        /\ UNCHANGED <<code, open, fault>>
+        /\ UNCHANGED <<code, open>>
 
 Run == /\ phase = "run" /\ pc # Halt /\ fault = {}
        /\ LET s == VMStep(p, pc, open) IN
